@@ -145,21 +145,22 @@ class PeekSlice(Terminal):
 
         pos = gen.new_temp("pos")
         gen.writeln(f"{pos} = state.pos")
+        gen.writeln(f"{matched_var} = True")
         peeked = gen.new_temp("peek")
         gen.writeln(f"for {peeked} in state.peek_slice({self.start}, {self.stop}):")
         with gen.block():
             gen.writeln(f"if state.input.startswith({peeked}, {pos}):")
             with gen.block():
                 gen.writeln(f"{pos} += len({peeked})")
-                gen.writeln(f"{matched_var} = True")
             gen.writeln("else:")
             with gen.block():
-                # TODO: test for failed PEEK slice
                 gen.writeln(f"{matched_var} = False")
                 gen.writeln(f"state.fail({peeked})")
                 gen.writeln("break")
 
-        gen.writeln(f"state.pos = {pos}")
+        gen.writeln(f"if {matched_var}:")
+        with gen.block():
+            gen.writeln(f"state.pos = {pos}")
 
         gen.writeln("# </PeekSlice>")
 
@@ -194,9 +195,10 @@ class Peek(Terminal):
         peeked = gen.new_temp("peek")
         gen.writeln(f"{peeked} = state.peek()")
 
-        gen.writeln(
-            f"if {peeked} is not None and state.input.startswith({peeked}, state.pos):"
-        )
+        gen.writeln(f"if {peeked} is None:")
+        with gen.block():
+            gen.writeln(f"{matched_var} = False")
+        gen.writeln(f"elif state.input.startswith({peeked}, state.pos):")
         with gen.block():
             gen.writeln(f"state.pos += len({peeked})")
             gen.writeln(f"{matched_var} = True")
@@ -222,50 +224,40 @@ class PeekAll(Terminal):
 
     def parse(self, state: ParserState, pairs: list[Pair]) -> bool:  # noqa: D102
         position = state.pos
-        stack_size = len(state.user_stack)
-        children: list[Pair] = []
 
-        for i, literal in enumerate(reversed(state.user_stack)):
-            # XXX: can `literal` be empty?
+        for literal in reversed(state.user_stack):
             if not state.input.startswith(literal, position):
                 state.fail(literal)
                 return False
 
             position += len(literal)
 
-            if i < stack_size:
-                state.parse_trivia(children)
-
         state.pos = position
-        pairs.extend(children)
         return True
 
     def generate(self, gen: Builder, matched_var: str, pairs_var: str) -> None:
         """Emit Python code for a PEEK_ALL expression."""
         gen.writeln("# <PeekAll>")
 
-        start_var = gen.new_temp("start")
-        tmp_pairs = gen.new_temp("pairs")
-
-        gen.writeln(f"{start_var} = state.pos")
-        gen.writeln(f"{tmp_pairs}: list[Pair] = []")
+        pos = gen.new_temp("pos")
+        gen.writeln(f"{pos} = state.pos")
         gen.writeln(f"{matched_var} = True")
 
-        gen.writeln("for i, literal in enumerate(reversed(state.user_stack)):")
+        peeked = gen.new_temp("peek")
+        gen.writeln(f"for {peeked} in reversed(state.user_stack):")
         with gen.block():
-            gen.writeln("if state.input.startswith(literal, state.pos):")
+            gen.writeln(f"if state.input.startswith({peeked}, {pos}):")
             with gen.block():
-                gen.writeln("state.pos += len(literal)")
-                gen.writeln(f"{matched_var} = True")
-                gen.writeln("if i < len(state.user_stack):")
-                with gen.block():
-                    gen.writeln(f"parse_trivia(state, {tmp_pairs})")
+                gen.writeln(f"{pos} += len({peeked})")
             gen.writeln("else:")
             with gen.block():
-                gen.writeln(f"state.pos = {start_var}")
                 gen.writeln(f"{matched_var} = False")
-                gen.writeln("state.fail(literal)")
+                gen.writeln(f"state.fail({peeked})")
                 gen.writeln("break")
+
+        gen.writeln(f"if {matched_var}:")
+        with gen.block():
+            gen.writeln(f"state.pos = {pos}")
 
         gen.writeln("# </PeekAll>")
 
@@ -299,9 +291,10 @@ class Pop(Terminal):
         peeked = gen.new_temp("peek")
         gen.writeln(f"{peeked} = state.peek()")
 
-        gen.writeln(
-            f"if {peeked} is not None and state.input.startswith({peeked}, state.pos):"
-        )
+        gen.writeln(f"if {peeked} is None:")
+        with gen.block():
+            gen.writeln(f"{matched_var} = False")
+        gen.writeln(f"elif state.input.startswith({peeked}, state.pos):")
         with gen.block():
             gen.writeln("state.user_stack.pop()")
             gen.writeln(f"state.pos += len({peeked})")
@@ -328,7 +321,6 @@ class PopAll(Terminal):
 
     def parse(self, state: ParserState, pairs: list[Pair]) -> bool:  # noqa: D102
         position = state.pos
-        children: list[Pair] = []
         state.checkpoint()
 
         while not state.user_stack.empty():
@@ -340,12 +332,8 @@ class PopAll(Terminal):
 
             position += len(literal)
 
-            # TODO: don't skip trivia after the last pop
-            state.parse_trivia(children)
-
         state.ok()
         state.pos = position
-        pairs.extend(children)
         return True
 
     def generate(self, gen: Builder, matched_var: str, pairs_var: str) -> None:
@@ -354,6 +342,7 @@ class PopAll(Terminal):
 
         pos = gen.new_temp("pos")
         gen.writeln(f"{pos} = state.pos")
+        gen.writeln(f"{matched_var} = True")
 
         peeked = gen.new_temp("peek")
         gen.writeln(f"for {peeked} in reversed(state.user_stack):")
@@ -361,15 +350,16 @@ class PopAll(Terminal):
             gen.writeln(f"if state.input.startswith({peeked}, {pos}):")
             with gen.block():
                 gen.writeln(f"{pos} += len({peeked})")
-                gen.writeln(f"{matched_var} = True")
             gen.writeln("else:")
             with gen.block():
                 gen.writeln(f"{matched_var} = False")
                 gen.writeln(f"state.fail({peeked})")
                 gen.writeln("break")
 
-        gen.writeln("state.user_stack.clear()")
-        gen.writeln(f"state.pos = {pos}")
+        gen.writeln(f"if {matched_var}:")
+        with gen.block():
+            gen.writeln("state.user_stack.clear()")
+            gen.writeln(f"state.pos = {pos}")
 
         gen.writeln("# </PopAll>")
 
